@@ -120,6 +120,69 @@ def gen_import_graph(root, rng):
     return ws
 
 
+def judge_import_ws(ctx, vh, db, ws, model, root):
+    raw = vh.call(op="raw", db=db)
+    order = def_index(raw)
+    indexed = set(raw["file_definitions"])
+    # reachability: every module reachable from a conftest / test file through the import graph is indexed
+    reach = set()
+    stack = [ws.abs(r_) for r_ in ws.files if os.path.basename(r_) == "conftest.py" or os.path.basename(r_).startswith("test_")]
+    seen = set(stack)
+    while stack:
+        f = stack.pop()
+        m = model.models.get(f)
+        if not m or not m.ok:
+            continue
+        for imp in m.imports:
+            tgt = model.resolve_module(imp[1], f)
+            if tgt and tgt not in seen:
+                seen.add(tgt); stack.append(tgt); reach.add(tgt)
+    for f in sorted(reach):
+        ctx.judged()
+        if model.models[f].defs and f not in indexed:
+            ctx.violation({"kind": "reachable-module-not-indexed", "module": os.path.relpath(f, root)}, {"spec": ws.spec}, files=ws.files)
+    # resolution from every probe
+    for rel in ws.files:
+        if not os.path.basename(rel).startswith("test_"):
+            continue
+        f = ws.abs(rel)
+        m = model.models[f]
+        direct = bool(m.imports)
+        for u in m.usages:
+            res, ex = model.resolve_usage(f, u)
+            exp = expected_target(res)
+            # names a test module imports itself
+            if direct:
+                own = model.imported_into(f)
+                if u["name"] in own:
+                    exp = {(own[u["name"]][0], own[u["name"]][1]["line"])}
+                    res = ("def", own[u["name"]][0], own[u["name"]][1], "own_import")
+            a = vh.call(op="goto", db=db, path=f, line=u["line"] - 1, char=u["start_b"])
+            t = a.get("target")
+            act = (t["file"], t["line"]) if t else None
+            ctx.judged()
+            ok = (act is None and exp is None) or (act is not None and exp is not None and act in exp)
+            if ok:
+                if exp:
+                    ctx.nontrivial(("a", res_kind(res), len(ws.spec["mods"]) > 4))
+                continue
+            if res is not None and res[3] == "own_import":
+                # resolver only consults conftest imports: the answer is what resolution without the test
+                # module's own imports gives
+                r2, _ = model.resolve_usage(f, u)
+                e2 = expected_target(r2)
+                pred = predict_import_branch(model, order, f, u["name"], ex)
+                if ((act is None and e2 is None) or (act is not None and ((e2 and act in e2) or act == pred))) and ctx.known(KF_TESTMOD):
+                    continue
+            pred = predict_import_branch(model, order, f, u["name"], ex)
+            if pred is not None and act == pred and ctx.known(KF_IMPORT_FIRST):
+                continue
+            ctx.violation({"kind": "import-resolution", "file": rel, "name": u["name"],
+                           "expected": sorted((os.path.relpath(a_, root), b_) for a_, b_ in exp) if exp else None,
+                           "actual": (os.path.relpath(act[0], root), act[1]) if act else None},
+                          {"spec": ws.spec, "kind": res_kind(res) if res else None}, files=ws.files)
+
+
 def part_a(ctx, vh, n):
     for i in range(n):
         root = ctx.scratch(f"g{i}")
@@ -130,66 +193,7 @@ def part_a(ctx, vh, n):
         r = vh.call(op="scan", db=db, root=root)
         if "panic" in r:
             raise Inconclusive(f"scan panicked: {r}")
-        raw = vh.call(op="raw", db=db)
-        order = def_index(raw)
-        indexed = set(raw["file_definitions"])
-        # reachability: every module reachable from a conftest / test file through the import graph is indexed
-        reach = set()
-        stack = [ws.abs(r_) for r_ in ws.files if os.path.basename(r_) == "conftest.py" or os.path.basename(r_).startswith("test_")]
-        seen = set(stack)
-        while stack:
-            f = stack.pop()
-            m = model.models.get(f)
-            if not m or not m.ok:
-                continue
-            for imp in m.imports:
-                tgt = model.resolve_module(imp[1], f)
-                if tgt and tgt not in seen:
-                    seen.add(tgt); stack.append(tgt); reach.add(tgt)
-        for f in sorted(reach):
-            ctx.judged()
-            if model.models[f].defs and f not in indexed:
-                ctx.violation({"kind": "reachable-module-not-indexed", "module": os.path.relpath(f, root)}, {"spec": ws.spec}, files=ws.files)
-        # resolution from every probe
-        for rel in ws.files:
-            if not os.path.basename(rel).startswith("test_"):
-                continue
-            f = ws.abs(rel)
-            m = model.models[f]
-            direct = bool(m.imports)
-            for u in m.usages:
-                res, ex = model.resolve_usage(f, u)
-                exp = expected_target(res)
-                # names a test module imports itself
-                if direct:
-                    own = model.imported_into(f)
-                    if u["name"] in own:
-                        exp = {(own[u["name"]][0], own[u["name"]][1]["line"])}
-                        res = ("def", own[u["name"]][0], own[u["name"]][1], "own_import")
-                a = vh.call(op="goto", db=db, path=f, line=u["line"] - 1, char=u["start_b"])
-                t = a.get("target")
-                act = (t["file"], t["line"]) if t else None
-                ctx.judged()
-                ok = (act is None and exp is None) or (act is not None and exp is not None and act in exp)
-                if ok:
-                    if exp:
-                        ctx.nontrivial(("a", res_kind(res), len(ws.spec["mods"]) > 4))
-                    continue
-                if res is not None and res[3] == "own_import":
-                    # resolver only consults conftest imports: the answer is what resolution without the test
-                    # module's own imports gives
-                    r2, _ = model.resolve_usage(f, u)
-                    e2 = expected_target(r2)
-                    pred = predict_import_branch(model, order, f, u["name"], ex)
-                    if ((act is None and e2 is None) or (act is not None and ((e2 and act in e2) or act == pred))) and ctx.known(KF_TESTMOD):
-                        continue
-                pred = predict_import_branch(model, order, f, u["name"], ex)
-                if pred is not None and act == pred and ctx.known(KF_IMPORT_FIRST):
-                    continue
-                ctx.violation({"kind": "import-resolution", "file": rel, "name": u["name"],
-                               "expected": sorted((os.path.relpath(a_, root), b_) for a_, b_ in exp) if exp else None,
-                               "actual": (os.path.relpath(act[0], root), act[1]) if act else None},
-                              {"spec": ws.spec, "kind": res_kind(res) if res else None}, files=ws.files)
+        judge_import_ws(ctx, vh, db, ws, model, root)
         vh.call(op="drop_db", db=db)
         if i < 2:
             ctx.sample({"spec": ws.spec})
@@ -405,7 +409,43 @@ def run(ctx):
                 "tier, layout features)")
     vh = VH(vh_bin(), locklog=os.path.join(ctx.scratch_root, "lock_vh.log"))
     try:
+        pinned(ctx, vh)
+        if os.environ.get("VERIF_ONLY_PINNED"):
+            return
         part_a(ctx, vh, 60 if quick else 3000)
         part_b(ctx, vh, 40 if quick else 2000, 5 if quick else 100)
     finally:
         vh.close()
+
+
+def pinned(ctx, vh):
+    import random
+    from ..witness import WITNESS, ws_from_witness
+    for kf_id in (KF_TESTMOD, KF_IMPORT_FIRST):
+        w = WITNESS[kf_id]
+        ws = ws_from_witness(ctx, w)
+        # every directory of the witness gets the probes the judge expects
+        model = ws.model()
+        db = vh.new_db()
+        vh.call(op="batch", cmds=[{"op": "analyze_fresh", "db": db, "path": ws.abs(r), "text": ws.files[r]} for r in w["order"]])
+        ws.spec = {"mods": [], "entries": [], "names": w["spec"]["names"], "depth": 1}
+        judge_import_ws(ctx, vh, db, ws, model, ws.root)
+        vh.call(op="drop_db", db=db)
+        shutil.rmtree(ws.root, ignore_errors=True)
+    # the explicit-import-in-plugin finding: first layout of a fixed seed sequence that contains the construct
+    for seed in range(400):
+        rng = random.Random(seed)
+        base = ctx.scratch("pv")
+        root = os.path.realpath(os.path.join(base, "ws")); outside = os.path.realpath(os.path.join(base, "outside"))
+        os.makedirs(root, exist_ok=True); os.makedirs(outside, exist_ok=True)
+        files, ext_files, expect = gen_venv_layout(root, outside, rng)
+        if any(e["tier"] == "explicit_plugin" for e in expect.values()):
+            shutil.rmtree(base, ignore_errors=True)
+            saved = ctx.rng
+            ctx.rng = random.Random(seed)
+            try:
+                part_b(ctx, vh, 1, 0)
+            finally:
+                ctx.rng = saved
+            break
+        shutil.rmtree(base, ignore_errors=True)
